@@ -3,8 +3,9 @@ CONSTANTS
   KeyRule = "any"
   D1 = TRUE
   D2 = FALSE
+  D3 = FALSE
   MaxSteps = 1
   Depth = 1
   StepTrees = FALSE
-INVARIANTS Refines AliasNeutral NoPrivateWrite WalkAudit PrivateStable
+INVARIANTS Refines AliasNeutral NoPrivateWrite WalkAudit PrivateStable InsideReads
 CHECK_DEADLOCK FALSE
